@@ -43,18 +43,12 @@ class TlcResult:
     def printed(self, tag: str) -> list:
         """all values printed by PrintT that are tuples starting with the string `tag`"""
         vals = []
-        marker = f'<<"{tag}"'
-        i = 0
-        while True:
-            i = self.out.find(marker, i)
-            if i < 0:
-                break
+        for m in re.finditer(r'<<\s*"' + re.escape(tag) + '"', self.out):
             try:
-                v, j = tlaval.parse_prefix(self.out, i)
+                v, _ = tlaval.parse_prefix(self.out, m.start())
                 vals.append(v)
-                i = j
-            except Exception:
-                i += len(marker)
+            except Exception as e:  # a value we cannot parse is a machinery failure, never silently dropped
+                raise MachineryFailure(f"cannot parse TLC output at {self.out[m.start():m.start()+200]!r}: {e}")
         return vals
 
 
